@@ -532,10 +532,12 @@ int API_FUNC qthread_syncvar_readFF_nb(uint64_t *restrict  dest,
         }
     }
 #endif /* if ((QTHREAD_ASSEMBLY_ARCH == QTHREAD_AMD64) || (QTHREAD_ASSEMBLY_ARCH == QTHREAD_IA64) || (QTHREAD_ASSEMBLY_ARCH == QTHREAD_POWERPC64) || (QTHREAD_ASSEMBLY_ARCH == QTHREAD_SPARCV9_64)) */
-    ret = qthread_mwaitc(src, SYNCFEB_FULL, 1, &e);
+    ret = qthread_mwaitc(src, SYNCFEB_ANY, INT_MAX, &e);
     qthread_debug(SYNCVAR_DETAILS, "2 src(%p) = %x, ret = %x\n", src,
                   (uintptr_t)src->u.w, ret);
-    if (e.cf) {                        /* there was a timeout */
+    qassert_ret(e.cf == 0, QTHREAD_TIMEOUT); /* there better not have been a timeout */
+    if (e.pf == 1) {                   /* empty: give up, but only because of the STATE (a busy lock bit is no reason) */
+        UNLOCK_THIS_UNMODIFIED_SYNCVAR(src, BUILD_UNLOCKED_SYNCVAR(src->u.s.data, src->u.s.state));
         qthread_debug(SYNCVAR_BEHAVIOR, "tid %u non-blocking fail\n", me->thread_id);
         return QTHREAD_OPFAIL;
     } else {
@@ -899,10 +901,12 @@ int API_FUNC qthread_syncvar_readFE_nb(uint64_t *restrict  dest,
 
     qthread_debug(SYNCVAR_BEHAVIOR, "me(%p), dest(%p), src(%p) = %x\n", me, dest,
                   src, (uintptr_t)src->u.w);
-    ret = qthread_mwaitc(src, SYNCFEB_FULL, 1, &e);
+    ret = qthread_mwaitc(src, SYNCFEB_ANY, INT_MAX, &e);
     qthread_debug(SYNCVAR_DETAILS, "2 src(%p) = %x\n", src,
                   (uintptr_t)src->u.w);
-    if (e.cf) {                        /* there was a timeout */
+    qassert_ret(e.cf == 0, QTHREAD_TIMEOUT); /* there better not have been a timeout */
+    if (e.pf == 1) {                   /* empty: give up, but only because of the STATE (a busy lock bit is no reason) */
+        UNLOCK_THIS_UNMODIFIED_SYNCVAR(src, BUILD_UNLOCKED_SYNCVAR(src->u.s.data, src->u.s.state));
         qthread_debug(SYNCVAR_BEHAVIOR, "tid %u non-blocking fail\n", me->thread_id);
         return QTHREAD_OPFAIL;
     } else if (e.sf == 1) {            /* waiters! */
@@ -1396,8 +1400,10 @@ int qthread_syncvar_writeEF_nb(syncvar_t *restrict      dest,
     if (!me) {
         return qthread_syncvar_blocker_func(dest, (void *)src, WRITEEF_NB);
     }
-    (void)qthread_mwaitc(dest, SYNCFEB_EMPTY, 1, &e);
-    if (e.cf) {                        /* there was a timeout */
+    (void)qthread_mwaitc(dest, SYNCFEB_ANY, INT_MAX, &e);
+    qassert_ret(e.cf == 0, QTHREAD_TIMEOUT); /* there better not have been a timeout */
+    if (e.pf == 0) {                   /* full: give up, but only because of the STATE (a busy lock bit is no reason) */
+        UNLOCK_THIS_UNMODIFIED_SYNCVAR(dest, BUILD_UNLOCKED_SYNCVAR(dest->u.s.data, dest->u.s.state));
         qthread_debug(SYNCVAR_BEHAVIOR, "tid %u non-blocking fail\n", me->thread_id);
         return QTHREAD_OPFAIL;
     } else if (e.sf == 1) {            /* there are waiters to release! */
